@@ -86,3 +86,6 @@ Definition quiet (o : out) : bool := forallb is_sleep o.
 (* the dial loop that is running, if any, can be ended by stop(): threaded flavours always
    (loop condition), asyncio only when it is transport.connect_task *)
 Definition stoppable (s : st) : Prop := ct s = CIdle \/ cancellable s = true.
+
+(* parameters used by the Examples: reconnect_timeout = 0.5 s, call_later slack 0.1 s, in ticks of 1/1024 s *)
+Definition p0 : params := mkParams 512 103.
